@@ -3045,3 +3045,107 @@ func E5ClosedPaintOperator(c *core.Ctx, r *core.Report) {
 	r.Count("E5.closed-paint-operator", n)
 	r.Floor("E5.closed-paint-operator", 6)
 }
+
+// E5NameEscape: names are written with #xx escapes for the bytes a name cannot hold.
+func E5NameEscape(c *core.Ctx, r *core.Report) {
+	r.Rule("E5.name-escape", "writeVal writes a pdfName as `/` and its bytes. Inside a name, white space and the delimiters ( ) < > [ ] { } / % end the name and # starts an escape (ISO 32000-1 §7.3.5); names are made from font files' PostScript names and user-chosen family names. The pdfName case of writeVal therefore writes the result of an escaping function applied to the value: a package function with a loop over the bytes whose condition for escaping mentions each of the ten delimiter bytes and #, a lower bound at the space and an upper bound at ~, and which formats the escaped byte with a two-digit upper- or lower-case hexadecimal verb after #")
+	p := c.MustPkg(pdfRel)
+	info := p.TypesInfo
+	wv := core.MustFuncDecl(p, "pdfWriter.writeVal")
+	r.Func("pdf.pdfWriter.writeVal")
+	key := "pdf.pdfWriter.writeVal|case pdfName|bytes escaped"
+	var clause *ast.CaseClause
+	ast.Inspect(wv.Body, func(n ast.Node) bool {
+		ts, ok := n.(*ast.TypeSwitchStmt)
+		if !ok || clause != nil {
+			return true
+		}
+		for _, s := range ts.Body.List {
+			cc := s.(*ast.CaseClause)
+			for _, e := range cc.List {
+				if tv, ok := info.Types[e]; ok && tv.IsType() {
+					if nt, ok := tv.Type.(*types.Named); ok && nt.Obj().Name() == "pdfName" {
+						clause = cc
+					}
+				}
+			}
+		}
+		return false
+	})
+	if clause == nil {
+		panic(core.Infra("E5.name-escape: pdfName case of writeVal not found"))
+	}
+	r.Count("E5.name-escape", 1)
+	// the escaping function called in the case
+	var esc *ast.FuncDecl
+	for _, s := range clause.Body {
+		ast.Inspect(s, func(m ast.Node) bool {
+			if call, ok := m.(*ast.CallExpr); ok {
+				if f := core.CalleeOf(info, call); f != nil && f.Pkg() == p.Types {
+					if fd := core.FuncDecl(p, f.Name()); fd != nil && fd.Recv == nil && fd.Type.Results.NumFields() == 1 {
+						if b, ok := info.TypeOf(fd.Type.Results.List[0].Type).Underlying().(*types.Basic); ok && b.Kind() == types.String {
+							esc = fd
+						}
+					}
+				}
+			}
+			return true
+		})
+	}
+	if esc == nil {
+		r.Fail("E5.name-escape", key, c.Pos(clause.Pos()), "the pdfName case of writeVal writes the bytes of the name as they are (no escaping function is applied): a space or delimiter in a font's PostScript or family name — `DejaVu(Serif` — ends the name inside the font dictionary and the object is not well-formed")
+		return
+	}
+	r.Func("pdf." + core.FuncName(esc))
+	// the loop, the condition, the hexadecimal verb
+	var need = []byte("()<>[]{}/%#")
+	have := map[byte]bool{}
+	lower, upper, hexVerb, loop := false, false, false, false
+	ast.Inspect(esc.Body, func(m ast.Node) bool {
+		switch x := m.(type) {
+		case *ast.ForStmt, *ast.RangeStmt:
+			loop = true
+		case *ast.BasicLit, *ast.Ident, *ast.BinaryExpr:
+			e := x.(ast.Expr)
+			if s, ok := constString(info, e); ok {
+				if strings.Contains(s, "#%02X") || strings.Contains(s, "#%02x") {
+					hexVerb = true // the format is not part of the condition
+				} else {
+					for i := 0; i < len(s); i++ {
+						have[s[i]] = true
+					}
+				}
+			} else if v, ok := core.ConstInt(info, e); ok && v >= 0 && v < 256 {
+				have[byte(v)] = true
+			}
+			if be, ok := x.(*ast.BinaryExpr); ok && (be.Op == token.LEQ || be.Op == token.LSS) {
+				// canonical form: smaller side on the left
+				if v, ok := core.ConstInt(info, be.Y); ok && ((be.Op == token.LEQ && v == ' ') || (be.Op == token.LSS && v == '!')) {
+					lower = true
+				}
+				if v, ok := core.ConstInt(info, be.X); ok && ((be.Op == token.LSS && v == '~') || (be.Op == token.LEQ && v == 0x7f)) {
+					upper = true
+				}
+			}
+		}
+		return true
+	})
+	var missing []string
+	for _, b := range need {
+		if !have[b] {
+			missing = append(missing, string(b))
+		}
+	}
+	switch {
+	case !loop:
+		r.Fail("E5.name-escape", key, c.Pos(esc.Pos()), core.FuncName(esc)+" has no loop over the bytes of the name")
+	case len(missing) > 0:
+		r.Fail("E5.name-escape", key, c.Pos(esc.Pos()), fmt.Sprintf("%s does not mention the byte(s) %s: a name containing one of them is written verbatim and ends early (or, for #, is read as an escape)", core.FuncName(esc), strings.Join(missing, " ")))
+	case !lower || !upper:
+		r.Fail("E5.name-escape", key, c.Pos(esc.Pos()), fmt.Sprintf("%s does not bound the bytes written verbatim by the space from below (c <= ' ') and by ~ from above ('~' < c): white space or bytes outside printable ASCII are written into the name", core.FuncName(esc)))
+	case !hexVerb:
+		r.Fail("E5.name-escape", key, c.Pos(esc.Pos()), core.FuncName(esc)+" does not format escaped bytes as # followed by two hexadecimal digits (#%02X)")
+	default:
+		r.OK("E5.name-escape", key, c.Pos(esc.Pos()), "through "+core.FuncName(esc))
+	}
+}
